@@ -979,7 +979,20 @@ def _jnp_any(x, **k):
 
 
 def _linspace(start, stop, num=50, endpoint=True, **kw):
-    return Sym('linspace', fz(start), fz(stop), fz(num), bool(fz(endpoint)))
+    n = fz(num)
+    if isinstance(n, int) and not isinstance(n, bool) and 0 < n <= 64 and not _is_opaque(start) and not _is_opaque(stop):
+        # a concrete count: the points themselves, start + (stop - start) * k / (n or n - 1), as polynomials in the bounds
+        a, b = lift(start), lift(stop)
+        den = (n - 1) if (endpoint and n > 1) else n
+        return AT((n,), np.array([a + (b - a) * Fraction(k, den) for k in range(n)], dtype=object))
+    return Sym('linspace', fz(start), fz(stop), n, bool(fz(endpoint)))
+
+
+def _sqrt_model(x):
+    if isinstance(x, (int, float)) and not isinstance(x, bool) and x >= 0:
+        import math
+        return math.sqrt(x)
+    return term('sqrt', x)
 
 
 def _round(x, *a):
@@ -1353,7 +1366,7 @@ def make_world_externals(world_ref):
              count_nonzero=opaque_fn('count_nonzero'), argsort=opaque_fn('argsort'),
              unravel_index=_unravel_index, divmod=_divmod_model,
              take=_take, einsum=_einsum_model, split=_split_model, cumsum=opaque_fn('cumsum'),
-             sqrt=opaque_fn('sqrt'), exp=opaque_fn('exp'), where=_where, prod=opaque_fn('prod'),
+             sqrt=_sqrt_model, exp=opaque_fn('exp'), where=_where, prod=opaque_fn('prod'),
              equal=lambda a, b: Pred.compare(lift(a), lift(b), '=='), not_equal=lambda a, b: Pred.compare(lift(a), lift(b), '==').negate(),
              remainder=lambda a, b: a % b, mod=lambda a, b: a % b, floor_divide=lambda a, b: a // b,
              broadcast_to=symaware('broadcast_to', alg.jnp_broadcast_to), diagonal=symaware('diagonal', alg.jnp_diagonal),
